@@ -17,7 +17,9 @@ META = {
     "brackets, blank lines, other statements on the line, decoy lambdas on the same / adjacent lines that are NOT passed to the "
     "operator), context (module-level def, nested def, class method, staticmethod in nested class, decorated, inside if/for/with/try, "
     "list/dict literal, comprehension, conditional expression, call argument; 0-3 indentation levels, spaces or tabs), one-line "
-    "functions passed by name; monitor at the operator boundary compares behaviour(passed callable) with behaviour(recorded lambda "
+    "functions passed by name, lambdas selected inside the argument list by a conditional expression / list / dict / or-chain / wrapper "
+    "call (one and two such calls on a line); every case is executed up to four times with the selecting flags changed in between "
+    "(state kept between calls must not matter); monitor at the operator boundary compares behaviour(passed callable) with behaviour(recorded lambda "
     "compiled in an empty environment) by symbolic probing with decision forking; an exception is allowed unless the layout is tagged "
     "documented-supported; distinct by (template, context, body form); non-trivial = the call's line or bracketed expression holds "
     "another lambda or a line break",
